@@ -232,7 +232,7 @@ func (a *An) c10MACs(rule string) {
 		} else {
 			a.checkHMACStream(rule, "sign", f, sum, "(otrVersion).hashInstance", "$key", []string{"$header", "dataMsg.serializeUnsignedCache"})
 			for _, st := range a.DirectStoresTo(a.MustField("dataMsg", "authenticator")) {
-				if st.Parent() == f {
+				if a.C.within(st, f) {
 					R.Check(st.Val == ssa.Value(sum), rule, "sign|whole", "the authenticator is the whole HMAC-SHA1 value", a.C.InstrPos(st), "stores "+a.C.Term(st.Val))
 				}
 			}
@@ -472,7 +472,7 @@ func (a *An) c10ReplyTag(rule string) {
 	}
 	n := 0
 	for _, st := range a.DirectStoresTo(fld) {
-		if st.Parent() != fn {
+		if !a.C.within(st, fn) {
 			continue
 		}
 		n++
